@@ -288,7 +288,34 @@ def big_cases(draw):
 
 
 @st.composite
+def same_labels_sequence_cases(draw):
+    """2-3 ordinal / numerical / Levenshtein dissimilarities over the SAME set of labels (same delta_empty), supplied in
+    different orders and with different positions: a value may depend on the two names (and positions) only"""
+    kind = draw(st.sampled_from(["ordinal", "ordinal", "numerical", "lev"]))
+    pool = gen.LABELS_NUM if kind == "numerical" else gen.LABELS_WORDS + gen.LABELS_ABC
+    labels = draw(st.lists(st.sampled_from(pool), min_size=3, max_size=6, unique=True))
+    delta = draw(st.sampled_from(gen.DELTAS))
+    specs = []
+    for _ in range(draw(st.integers(2, 3))):
+        order = list(draw(st.permutations(labels)))
+        if kind == "ordinal":
+            p_ = None if draw(st.booleans()) else draw(st.lists(st.integers(0, 40).map(lambda k: k / 4), min_size=len(order), max_size=len(order)))
+            sp = {"kind": "ordinal", "labels": order, "p": p_, "delta": delta}
+        elif kind == "numerical":
+            sp = {"kind": "numerical", "labels": order, "delta": delta}
+        else:
+            sp = {"kind": "lev", "labels": order, "delta": delta}
+        if draw(st.integers(0, 2)) == 0:
+            sp = {"kind": "combined", "alpha": draw(st.sampled_from(gen.COEFS)), "beta": draw(st.sampled_from([1.0, 0.5, 2.0])), "delta": delta, "pos": None, "cat": sp}
+        specs.append(sp)
+    pairs = draw(st.lists(unit_pairs(st.integers(0, 5)), min_size=5, max_size=9))
+    return {"sequence": specs, "pairs": pairs}
+
+
+@st.composite
 def sequence_cases(draw):
+    if draw(st.booleans()):
+        return draw(same_labels_sequence_cases())
     k = draw(st.integers(2, 3))
     specs = []
     for _ in range(k):
